@@ -331,6 +331,8 @@ pub enum KeyAlg {
 	Rsa2048,
 	Rsa3072,
 	Rsa4096,
+	/// above ring's limit for private keys (4096 bits); aws-lc-rs only
+	Rsa6144,
 }
 
 #[derive(Clone, Copy, Debug, PartialEq, Eq, Hash, Serialize, Deserialize, PartialOrd, Ord)]
@@ -354,7 +356,7 @@ pub struct KeySpec {
 
 impl KeySpec {
 	pub fn is_rsa(&self) -> bool {
-		matches!(self.alg, KeyAlg::Rsa2048 | KeyAlg::Rsa3072 | KeyAlg::Rsa4096)
+		matches!(self.alg, KeyAlg::Rsa2048 | KeyAlg::Rsa3072 | KeyAlg::Rsa4096 | KeyAlg::Rsa6144)
 	}
 	pub fn label(&self) -> String {
 		if self.is_rsa() {
